@@ -453,6 +453,28 @@ Example C12_ex_reserve_two_free_three_used :
 Proof. vm_compute. reflexivity. Qed.
 
 
+(* mpt_command_reserve for ANY id limit (every arm of its switch: header widths 0..8 and more, as called directly):
+   the slot handed out carries an id in 1..limit that no slot in use has; the table is the slots in use, in order, + the new one *)
+Theorem C12_reserve_any_limit :
+  forall hasbuf tab mxv tag tab' k id,
+  reserve_max hasbuf tab mxv tag = Some (tab', k, id) ->
+  nth_error tab' k = Some (mkwe id (Some tag)) /\
+  act_ids tab' = (if hasbuf then act_ids tab else []) ++ [id] /\
+  (hasbuf = true -> ~ In id (act_ids tab)) /\ (1 <= id <= mxv)%N.
+Proof. exact reserve_max_fresh. Qed.
+
+Theorem C12_reserve_any_limit_table :
+  forall tab mxv tag tab' k id,
+  reserve_max true tab mxv tag = Some (tab', k, id) ->
+  tab' = tactive tab ++ [mkwe id (Some tag)] /\ k = length (tactive tab).
+Proof. exact reserve_max_table. Qed.
+
+(* six-byte headers, called directly: three requests, the first released, a fourth: ids 1 2 3 4, slot 0 is re-used by the compaction *)
+Example C12_ex_reserve_run :
+  map fst (reserve_run false [] 6 0 [None; None; None; Some 0; None]) = [Some (0, 1%N); Some (1, 2%N); Some (2, 3%N); None; Some (2, 4%N)] /\
+  maxid_raw 6 = (2 ^ 47 - 1)%N /\ maxid_raw 9 = (2 ^ 63 - 1)%N.
+Proof. vm_compute. repeat split. Qed.
+
 (* ------------------------------------------------------------------ round 3: the rest of the object of mpt_output_remote() *)
 
 (* a connection that lost its backend (POLLHUP on the datagram socket, mpt_connection_assign(con, NULL)), reached by
@@ -616,3 +638,5 @@ Print Assumptions C12_conn_clear_calls.
 Print Assumptions C12_conn_reopen_keeps_context.
 Print Assumptions C12_conn_sync_end_keeps_ids.
 Print Assumptions C12_conn_log_is_one_message.
+Print Assumptions C12_reserve_any_limit.
+Print Assumptions C12_reserve_any_limit_table.
